@@ -461,8 +461,11 @@ theorem general_builder_is_plain (g : GCfg) (sys : Sys) (ha : g.active = []) (hc
 /-- **`get_odesys` with `Expr`-valued substitutions and `constants=`: still `Nᵀ·r`.**  Every accepted build has the substance
     keys as names, one expression per substance, the mass-action rates behind `rate_exprs_cb`, and right-hand sides that
     evaluate to `Σ_r netOf r s · rateVal vars env r` (+ feed), `vars = mkVarsG g sys` being the `variables` dict after the
-    active substitutions were evaluated in order and the passive values written (internal form; what an actively
-    substituted entry is worth is `active_substitution_means_expression`). -/
+    active substitutions were evaluated in order and the passive values written.  INTERNAL form (it also holds when an active
+    key or a substitution key equals a substance key, i.e. it is `Nᵀ·r` for whatever `variables` resolves to); what an actively
+    substituted entry is worth is `active_substitution_means_expression`; an explicit-environment corollary with a capture
+    hypothesis exists for the plain builder (`rhs_is_kinetic_model`), for `constants=` (through
+    `constants_are_passive_substitutions`) and for user symbols (`user_symbols_kinetic_model`), NOT for active substitutions. -/
 theorem rhsG_is_NT_r (g : GCfg) (sys : Sys) (o : OdeSys) (hnd : sys.subst.Nodup) (h : buildRhsG g sys = .ok o)
     (env : String → R) :
     ∃ vars, mkVarsG g sys = some vars ∧ o.names = sys.subst ∧ o.exprs.length = sys.subst.length ∧
@@ -500,7 +503,8 @@ theorem constants_are_passive_substitutions (g : GCfg) (sys : Sys) (ha : g.activ
 
 /-- **User-supplied `substance_symbols` / `parameter_symbols` of `_create_odesys`**: wrong substance keys → ValueError; a
     `parameter_symbols` that is no `OrderedDict` → ValueError; neither given → the default builder; an ordered
-    `parameter_symbols` → its keys are the parameter names, in its order, and the right-hand sides are `Nᵀ·r`. -/
+    `parameter_symbols` → its keys are the parameter names, in its order, and the right-hand sides are `Nᵀ·r` (internal form;
+    the statement in the user's terms is `user_symbols_kinetic_model`). -/
 theorem user_symbols (u : UCfg') (sys : Sys) (hnd : sys.subst.Nodup) (env : String → R) :
     (∀ ks, u.substKeys = some ks → ks ≠ sys.subst → buildRhs'U u sys = .error .valueError) ∧
     (∀ keys, (u.substKeys = none ∨ u.substKeys = some sys.subst) → u.paramKeys = some (false, keys) →
@@ -515,6 +519,29 @@ theorem user_symbols (u : UCfg') (sys : Sys) (hnd : sys.subst.Nodup) (env : Stri
                (cval (mkVars sys.subst keys u.cfg.paramExprs) env ("fc_" ++ s) - cval (mkVars sys.subst keys u.cfg.paramExprs) env s)
            else 0)) :=
   user_symbols_spec u sys hnd env
+
+/-- **User-supplied `parameter_symbols`, in the user's terms** (the explicit-environment form of the 4th clause of
+    `user_symbols`): if no name is captured (`noCapture`, and none of the user's parameter keys is a substance key) and
+    every exposed named constant is bound to its stored value, the accepted build has the user's keys as parameter names and
+    every right-hand side evaluates to `kineticRhs` — `Nᵀ·r` of the reactions' OWN constants and the substances' OWN
+    concentrations — whichever keys the user chose to expose. -/
+theorem user_symbols_kinetic_model (u : UCfg') (sys : Sys) (keys : List String) (o : OdeSys') (hnd : sys.subst.Nodup)
+    (hsub : (dkeys u.cfg.paramExprs).Nodup) (hp : u.paramKeys = some (true, keys)) (h : buildRhs'U u sys = .ok o)
+    (hnc : noCapture sys (dkeys u.cfg.paramExprs) u.cfg.cstr = true) (hkeys : ∀ k ∈ keys, k ∉ sys.subst)
+    (env : String → R)
+    (hbind : ∀ r ∈ sys.rxns, ∀ uk k, r.param = .named uk k → uk ∉ dkeys u.cfg.paramExprs → uk ∈ keys → env uk = algebraMap ℚ R k) :
+    o.names = sys.subst ∧ o.paramNames = keys ∧ o.exprs.length = sys.subst.length ∧
+      ∀ (i : ℕ) (s : String), sys.subst[i]? = some s → ∃ e, o.exprs[i]? = some e ∧
+        ev env e = kineticRhs u.cfg.paramExprs u.cfg.cstr env sys.rxns s :=
+  rhs'U_explicit u sys keys o hnd hsub hp h hnc hkeys env hbind
+
+/-- **A plain-dict `substance_symbols` binds by key, not by position**: if it has a symbol for every substance, the build is
+    the build without it, whatever the insertion order of the dict (the equations stay attached to their own substances);
+    if a substance has no symbol the build is never accepted. -/
+theorem plain_dict_symbols_bind_by_key (u : UCfg') (ks : List String) (sys : Sys) :
+    ((∀ k ∈ sys.subst, k ∈ ks) → buildRhs'P u (some ks) sys = buildRhs'U u sys) ∧
+    (¬ (∀ k ∈ sys.subst, k ∈ ks) → ∀ o, buildRhs'P u (some ks) sys ≠ .ok o) ∧ buildRhs'P u none sys = buildRhs'U u sys :=
+  buildRhs'P_plain u ks sys
 
 /-! ### The precondition on shared keys is necessary, and the hypotheses are satisfiable -/
 
@@ -633,5 +660,11 @@ example : (∃ o, buildRhsG exConsts exSys = .ok o ∧
     buildRhs'U { paramKeys := some (false, ["k2", "k3", "k4"]) } exSys = .error .valueError ∧
     (∃ o, buildRhs'U { paramKeys := some (true, ["k4", "k3", "k2"]) } exSys = .ok o ∧ o.paramNames = ["k4", "k3", "k2"]) := by
   refine ⟨⟨_, rfl, ?_, ?_⟩, rfl, rfl, rfl, ⟨_, rfl, rfl⟩⟩ <;> decide +kernel
+
+/-- a plain dict in another insertion order builds the same system; one without a symbol for `C` is refused -/
+example : buildRhs'P { cfg := {} } (some ["D", "B", "A", "C"]) { exSys with rxns := exSys.rxns.drop 1 } =
+      buildRhs'U { cfg := {} } { exSys with rxns := exSys.rxns.drop 1 } ∧
+    buildRhs'P { paramKeys := some (true, ["k2", "k3", "k4"]) } (some ["D", "B", "A"]) exSys = .error .keyError := by
+  constructor <;> rfl
 
 end ChemModel.C04
